@@ -1440,8 +1440,16 @@ func c12Scripts(c *Ctx, keys *c12Keys) {
 		g := &c12Gen{c: c, run: run, chain: map[uint64]int{}}
 		P0 := uint64(r.Intn(7))
 		slot0 := P0*c12SPP + uint64(100+r.Intn(c12SPP-3000))
+		if alter == 1 { // a committee with many repeated members (small validator sets produce them)
+			off := r.Intn(c12NK)
+			ks := make([]int, 512)
+			for i := range ks {
+				ks[i] = (off + i%(64+r.Intn(64))) % c12NK
+			}
+			g.chain[P0] = run.addComm(ks)
+		}
 		cur := g.commFor(P0)
-		if alter != 0 {
+		if alter < 0 {
 			k := append([]int{}, run.comms[cur].keys...)
 			k[r.Intn(512)] = alter
 			cur = run.addComm(k)
@@ -1488,6 +1496,58 @@ func c12Scripts(c *Ctx, keys *c12Keys) {
 		}
 		emit(g, run, gen, store0, steps, truths, obs)
 	}
+	// ---- C: several committee hand-overs in a row (learn the next committee, then three rotations by full updates, each
+	// carrying the following committee), then a finality update in the last period: the chain of the history theorem
+	{
+		g, run, _, gen := start(0)
+		store0 := g.storeString()
+		obs := []string{run.digest()}
+		var steps, truths []string
+		add := func(s c12Step, tag string) {
+			steps = append(steps, s.String())
+			truths = append(truths, s.truth)
+			obs = append(obs, run.exec(&s))
+			c.Count("script_" + tag)
+		}
+		period := func() uint64 { return uint64(run.client.Store.FinalizedHeader.Slot) / c12SPP }
+		if lr, ok := build(g, "valid", 'U', func(s *c12Step) bool {
+			return s.truth == "-" && c12Popcount(s.bits)*3 >= 1024 && s.fin != nil && s.fin.slot > uint64(run.client.Store.FinalizedHeader.Slot)
+		}); ok {
+			add(lr, "learn_next_committee")
+		}
+		for k := 0; k < 3 && run.client.Store.NextSyncCommittee != nil; k++ {
+			P := period()
+			rot, ok := build(g, "valid", 'U', func(s *c12Step) bool {
+				return s.truth == "-" && s.sigSlot/c12SPP == P+1 && s.fin != nil && s.fin.slot/c12SPP == P+1 && c12Popcount(s.bits)*3 >= 1024
+			})
+			if !ok {
+				break
+			}
+			add(rot, "handover_by_full_update")
+		}
+		if fu, ok := build(g, "valid", 'F', func(s *c12Step) bool { return s.truth == "-" && c12Popcount(s.bits)*3 >= 1024 }); ok {
+			add(fu, "finality_after_handovers")
+		}
+		emit(g, run, gen, store0, steps, truths, obs)
+	}
+	// ---- D: a committee with repeated members: every occurrence of a member counts and signs
+	{
+		g, run, _, gen := start(1)
+		store0 := g.storeString()
+		obs := []string{run.digest()}
+		var steps, truths []string
+		for _, m := range []byte("OFU") {
+			s, ok := build(g, "valid", m, func(s *c12Step) bool { return s.truth == "-" && c12Popcount(s.bits) >= 300 })
+			if !ok {
+				continue
+			}
+			steps = append(steps, s.String())
+			truths = append(truths, s.truth)
+			obs = append(obs, run.exec(&s))
+			c.Count("script_repeated_members_" + string(m))
+		}
+		emit(g, run, gen, store0, steps, truths, obs)
+	}
 	// ---- B
 	for _, alter := range []int{-2, -1} {
 		g, run, _, gen := start(alter)
@@ -1509,6 +1569,22 @@ func c12Scripts(c *Ctx, keys *c12Keys) {
 	}
 }
 
+// c12Clock: expectedCurrentSlot() against the model's expected_current_slot, through the genesis time (the wall clock is read by
+// the code; delta = now - genesis is chosen 5 s into a slot so that the reading cannot straddle a slot boundary)
+func c12Clock(c *Ctx, keys *c12Keys) {
+	r := c.Rng
+	run := c12NewRunner(keys, common.Root{})
+	ds := []int64{5, 17, 12*8191 + 5, 12*8192 + 5, 12*32 + 5, -1, -100000, 0}
+	for i := 0; i < 6; i++ {
+		ds = append(ds, int64(r.Intn(1<<26))*12+5) // below the wall clock, the genesis time is a uint64
+	}
+	for _, d := range ds {
+		run.client.Config.Chain.GenesisTime = uint64(time.Now().Unix() - d)
+		c.Emit("ecs %d | ok %d", d, uint64(run.client.VerifExpectedCurrentSlot()))
+		c.Count("clock_cases")
+	}
+}
+
 func c12BootCases(c *Ctx, keys *c12Keys, n int) {
 	r := c.Rng
 	for i := 0; i < n; i++ {
@@ -1517,6 +1593,9 @@ func c12BootCases(c *Ctx, keys *c12Keys, n int) {
 		slot := uint64(r.Intn(20)) * c12SPP / 3
 		b := g.mkBoot(slot, g.commFor(slot/c12SPP))
 		kind := r.Pick([]int{0, 0, 1, 2, 3, 4, 5, 6})
+		if i == n-1 {
+			kind = 7
+		}
 		c.Count(fmt.Sprintf("boot_kind_%d", kind))
 		switch kind {
 		case 1:
@@ -1528,6 +1607,15 @@ func c12BootCases(c *Ctx, keys *c12Keys, n int) {
 		case 3:
 			b.branch[r.Intn(5)][r.Intn(32)] ^= 4
 			b.truth = "C"
+		case 7: // a genuine ELECTRA state: 64 leaves, the committee at generalized index 86 (depth 6 index 22), fields 44 and 45 absent
+			// (zero chunks under generalized index 54, the position the code checks), honest 6-node branch: the code cannot accept it
+			t := c12NewTree(r)
+			t.fixed[86] = run.comms[b.comm].root
+			t.fixed[108], t.fixed[109] = [32]byte{}, [32]byte{}
+			b.hdr.state = t.node(1)
+			b.branch = t.branch(86)
+			b.checkpoint = run.realBoot(b).Header.HashTreeRoot(tree.GetHashFn())
+			b.truth = "X"
 		case 4: // sixth node is never read
 			b.branch[5][0] ^= 1
 		case 5:
@@ -1622,7 +1710,7 @@ func runC12(c *Ctx) {
 		return
 	}
 	keys := c12GenKeys(c.Seed)
-	nh, steps, nb := 15, 8, 12
+	nh, steps, nb := 13, 8, 12
 	if c.Tier == "thorough" {
 		nh, steps, nb = 150, 14, 150
 	}
@@ -1630,6 +1718,7 @@ func runC12(c *Ctx) {
 		nh = c.N
 	}
 	c12BootCases(c, keys, nb)
+	c12Clock(c, keys)
 	c12Matrix(c, keys)
 	c12Scripts(c, keys)
 	for i := 0; i < nh; i++ {
